@@ -1,8 +1,18 @@
 package checks
 
 import (
+	"context"
+	"fmt"
+	"sort"
+	"testing"
+	"testing/synctest"
+
+	"go.6river.tech/mmmbbb/grpc/pubsubpb"
+
 	"verif/mc/hist"
 	"verif/mc/model"
+	"verif/mc/report"
+	"verif/mc/world"
 )
 
 func get(kind, name string) model.Op {
@@ -96,4 +106,155 @@ func init() {
 			},
 		}
 	}
+}
+
+
+// More live resources than the server's page-size cap (100), walked with page
+// sizes below, at and above the cap: the union of the pages is the live set of
+// exactly that project, for every List call.
+func init() {
+	addExtra("C12", func(t *testing.T, tier string) (map[string]any, []report.Viol, error) {
+		var viols []report.Viol
+		walks := 0
+		var ferr error
+		synctest.Test(t, func(t *testing.T) {
+			w, err := world.Open()
+			if err != nil {
+				ferr = err
+				return
+			}
+			defer w.Close()
+			w.SeqTick = false
+			ctx := context.Background()
+			const N = 121
+			live := map[string]map[string]bool{"topics": {}, "subs": {}, "snaps": {}, "topicsubs": {}}
+			for _, proj := range []string{"projects/big", "projects/BIG"} {
+				for i := 0; i < N; i++ {
+					if proj == "projects/BIG" && i >= 3 {
+						break
+					}
+					tn := fmt.Sprintf("%s/topics/t%03d", proj, i)
+					if _, err := w.Pub.CreateTopic(ctx, &pubsubpb.Topic{Name: tn}); err != nil {
+						ferr = err
+						return
+					}
+					sn := fmt.Sprintf("%s/subscriptions/s%03d", proj, i)
+					if _, err := w.Sub.CreateSubscription(ctx, &pubsubpb.Subscription{Name: sn, Topic: fmt.Sprintf("%s/topics/t000", proj)}); err != nil {
+						ferr = err
+						return
+					}
+					pn := fmt.Sprintf("%s/snapshots/n%03d", proj, i)
+					if _, err := w.Sub.CreateSnapshot(ctx, &pubsubpb.CreateSnapshotRequest{Name: pn, Subscription: sn}); err != nil {
+						ferr = err
+						return
+					}
+					if proj == "projects/big" {
+						live["topics"][tn], live["subs"][sn], live["snaps"][pn], live["topicsubs"][sn] = true, true, true, true
+					}
+				}
+			}
+			// delete a few and re-create one
+			for _, i := range []int{5, 50, 100, 120} {
+				tn := fmt.Sprintf("projects/big/topics/t%03d", i)
+				w.Pub.DeleteTopic(ctx, &pubsubpb.DeleteTopicRequest{Topic: tn})
+				delete(live["topics"], tn)
+				sn := fmt.Sprintf("projects/big/subscriptions/s%03d", i)
+				pn := fmt.Sprintf("projects/big/snapshots/n%03d", i)
+				w.Sub.DeleteSnapshot(ctx, &pubsubpb.DeleteSnapshotRequest{Snapshot: pn})
+				delete(live["snaps"], pn)
+				w.Sub.DeleteSubscription(ctx, &pubsubpb.DeleteSubscriptionRequest{Subscription: sn})
+				delete(live["subs"], sn)
+				delete(live["topicsubs"], sn)
+			}
+			w.Pub.CreateTopic(ctx, &pubsubpb.Topic{Name: "projects/big/topics/t050"})
+			live["topics"]["projects/big/topics/t050"] = true
+			page := func(kind string, size int32, token string) ([]string, string, error) {
+				switch kind {
+				case "topics":
+					r, err := w.Pub.ListTopics(ctx, &pubsubpb.ListTopicsRequest{Project: "projects/big", PageSize: size, PageToken: token})
+					if err != nil {
+						return nil, "", err
+					}
+					var out []string
+					for _, x := range r.Topics {
+						out = append(out, x.Name)
+					}
+					return out, r.NextPageToken, nil
+				case "subs":
+					r, err := w.Sub.ListSubscriptions(ctx, &pubsubpb.ListSubscriptionsRequest{Project: "projects/big", PageSize: size, PageToken: token})
+					if err != nil {
+						return nil, "", err
+					}
+					var out []string
+					for _, x := range r.Subscriptions {
+						out = append(out, x.Name)
+					}
+					return out, r.NextPageToken, nil
+				case "snaps":
+					r, err := w.Sub.ListSnapshots(ctx, &pubsubpb.ListSnapshotsRequest{Project: "projects/big", PageSize: size, PageToken: token})
+					if err != nil {
+						return nil, "", err
+					}
+					var out []string
+					for _, x := range r.Snapshots {
+						out = append(out, x.Name)
+					}
+					return out, r.NextPageToken, nil
+				default:
+					r, err := w.Pub.ListTopicSubscriptions(ctx, &pubsubpb.ListTopicSubscriptionsRequest{Topic: "projects/big/topics/t000", PageSize: size, PageToken: token})
+					if err != nil {
+						return nil, "", err
+					}
+					return r.Subscriptions, r.NextPageToken, nil
+				}
+			}
+			for _, kind := range []string{"topics", "subs", "snaps", "topicsubs"} {
+				for _, size := range []int32{0, 1, 7, 50, 99, 100, 101, 150, 1000} {
+					if size == 1 && tier != "thorough" && kind != "topics" {
+						continue
+					}
+					walks++
+					got := map[string]int{}
+					token := ""
+					pages := 0
+					var werr error
+					for {
+						names, next, err := page(kind, size, token)
+						if err != nil {
+							werr = err
+							break
+						}
+						for _, n := range names {
+							got[n]++
+						}
+						pages++
+						if next == "" || pages > 400 {
+							break
+						}
+						token = next
+					}
+					var missing, extra []string
+					for n := range live[kind] {
+						if got[n] != 1 {
+							missing = append(missing, n)
+						}
+					}
+					for n, c := range got {
+						if !live[kind][n] || c > 1 {
+							extra = append(extra, n)
+						}
+					}
+					sort.Strings(missing)
+					sort.Strings(extra)
+					if werr != nil || len(missing) > 0 || len(extra) > 0 {
+						if len(missing) > 4 {
+							missing = append(missing[:4], fmt.Sprintf("... %d in all", len(missing)))
+						}
+						viols = append(viols, report.Viol{Property: "C12", Check: "C12/more-than-a-page-cap", Rule: "list-mismatch", Text: fmt.Sprintf("List %s of a project with %d live ones, page size %d (%d pages): error %v, not listed exactly once %v, listed but not live / listed twice %v", kind, len(live[kind]), size, pages, werr, missing, extra), Trace: []string{kind, fmt.Sprint(size)}})
+					}
+				}
+			}
+		})
+		return map[string]any{"big_list_walks": walks}, viols, ferr
+	})
 }
